@@ -103,7 +103,7 @@ FinOk(f) == /\ f.x \in Actors
             /\ ac[f.x].st = f.st
             /\ f.kids = Cardinality(Kids(f.x))
             /\ f.sup = (ac[f.x].par # NoA)
-            /\ f.reg = Registered(f.x)
+            /\ (f.named => f.reg = Registered(f.x))
             /\ f.pg = InGroup(f.x)
 \* at quiescence nothing is in flight: every actor is absent, idle with empty queues, or dead
 QuiescentOk == \A a \in Actors : /\ ac[a].pc \in {"none", "idle", "dead"}
